@@ -138,7 +138,7 @@ type producer struct {
 // generate builds one log: a sequence of entries with ascending offsets.
 func generate(rng *rand.Rand) (*genLog, error) {
 	g := &genLog{feats: map[string]bool{}}
-	styles := []string{"v2", "v2", "v2", "v2-txn-heavy", "v2-txn-heavy", "v0", "v1", "mixed"}
+	styles := []string{"v2", "v2", "v2", "v2-txn-heavy", "v2-txn-heavy", "v0", "v1", "mixed", "anymix"}
 	g.style = styles[rng.IntN(len(styles))]
 	off := int64(rng.IntN(50))
 	switch rng.IntN(8) {
@@ -358,6 +358,18 @@ func generate(rng *rand.Rand) (*genLog, error) {
 			err = legacyStep(0)
 		case "v1":
 			err = legacyStep(1)
+		case "anymix":
+			// every entry picks its own format: a record batch may be followed by legacy
+			// messages (a topic whose message format version was lowered), which is where
+			// per-entry parser state (checksum table, header offsets) must be reset
+			switch rng.IntN(3) {
+			case 0:
+				err = legacyStep(0)
+			case 1:
+				err = legacyStep(1)
+			default:
+				err = v2Step()
+			}
 		case "mixed":
 			switch {
 			case i < nEntries/4:
